@@ -237,6 +237,6 @@ func c12Worker(sh *explore.Shard) {
 
 func init() {
 	Registry["C12"] = &Check{Level: "exploration", Worker: c12Worker, QuickBudget: 40 * time.Second, ThoroughBudget: 5 * time.Minute,
-		Rule: "both prefix systems: every n in [0,2^20) (quick) / [0,2^26) (thorough); every rounding half-boundary of every prefix and precision band +-3; every prefix multiplier x {1,10,100,999.5,1000,1024} +-3; 2^k +-3 for all k; cap-3..cap. Oracle: exact big-integer arithmetic (prefix choice, half-unit error bound, exactness below the first prefix, >=3 significant digits, <=5 characters, monotone magnitude between adjacent explored values). distinct_nontrivial = values checked (all are distinct inputs)",
+		Rule:        "both prefix systems: every n in [0,2^20) (quick) / [0,2^26) (thorough); every rounding half-boundary of every prefix and precision band +-3; every prefix multiplier x {1,10,100,999.5,1000,1024} +-3; 2^k +-3 for all k; cap-3..cap. Oracle: exact big-integer arithmetic (prefix choice, half-unit error bound, exactness below the first prefix, >=3 significant digits, <=5 characters, monotone magnitude between adjacent explored values). distinct_nontrivial = values checked (all are distinct inputs)",
 		Assumptions: []string{"values above the dense range that are not near an enumerated boundary are not explored; between two adjacent explored points nothing is claimed about the interior"}}
 }
